@@ -10,7 +10,7 @@ de-normalised equation of every endogenous symbol; ast.dump of every generated c
 K  = extracted parser model (parse_model_nocheck, coq/Extract/Graph driver) vs fsic.parse_model(check_syntax=False) on the base
      script, the transformed script and every statement: every field of every Symbol / exception class; and the domain of the
      fixed-point theorem: every real normalised equation, read back by the extracted GTokenise.tokenise, passes the extracted
-     Denorm.dq_ok, Denorm.neq_code reproduces the code, and Denorm.denorm_text is the text the oracle feeds back.
+     Denorm.dq_ok and GraphSrcWf.sep_ok, Denorm.neq_code reproduces the code, and Denorm.denorm_text is the text the oracle feeds back.
 O  = the metamorphic relations of the property on the real observations (see `oracle`)."""
 import json
 import re
